@@ -187,6 +187,12 @@ def _roundtrip(X, flows, where):
             X.fail(f"C36/{where}/state/{_field_of(d)}", f"flow {i} ({type(f).__name__}): {d}")
         if not F.typed_eq(st, st2):
             X.fail(f"C36/{where}/state-types", f"flow {i} ({type(f).__name__}): {F.first_diff(st, st2)}")
+        # the same comparison on the objects' attributes, without get_state(): a value get_state() drops on both sides
+        # (and which therefore never reaches the file) is invisible above
+        ad = F.attr_diff(F.attr_view(f), F.attr_view(g))
+        if ad:
+            top = ad.lstrip(".").split(":")[0].split(".")[0].split("[")[0] or "top"
+            X.fail(f"C36/{where}/attribute/{top}", f"flow {i} ({type(f).__name__}): written vs read object attributes differ at {ad}")
     return back
 
 
